@@ -5,7 +5,7 @@ import random
 from typing import Any, Dict, List, Optional
 
 from refs import codecs
-from .tcp_gen import SCRIPTS, base_config, uidify
+from .tcp_gen import BODY_EXCEPTION_KINDS, SCRIPTS, base_config, uidify
 
 ALL_PORTS = [20002, 10002, 20003, 10003]
 MODELS = list(codecs.MODELS)
@@ -250,6 +250,10 @@ def gen_c06(rng, index: int, systematic: bool) -> Dict[str, Any]:
             else:
                 items.append(junk_dgram(rng, tag, rng.choice(["foreign", "truncated", "extended", "wrong_magic", "empty",
                                                               "truncated", "extended", "selfdescribing", "selfdescribing"])))
+            if rng.random() < 0.2:
+                # the very same datagram again (a device re-broadcasting): whatever the first one caused, the
+                # second must cause too
+                items.append(rng.choice(items))
     for t, b in enumerate(items):
         steps.append({"kind": "dgram", "port": rng.choice(ports), "payload": b.hex(), "tag": t})
         steps.append({"kind": "sleep", "s": 2.0})
@@ -267,6 +271,10 @@ def gen_c06_models(rng, index: int) -> Dict[str, Any]:
         carrier[74:76] = code.to_bytes(2, "big")
         steps.append({"kind": "dgram", "port": rng.choice([20002, 20003]), "payload": bytes(carrier).hex(), "tag": j})
         steps.append({"kind": "sleep", "s": 2.0})
+    # ... and one of them once more (a device announces itself every few seconds)
+    again = dict(steps[1 + 2 * rng.randrange(16)], tag=16, port=rng.choice([20002, 20003]))
+    steps.append(again)
+    steps.append({"kind": "sleep", "s": 2.0})
     return {"engine": "udp", "config": cfg, "steps": uidify(steps)}
 
 
@@ -432,7 +440,7 @@ def gen_c17(rng, index: Optional[int] = None, maxlen: int = 4, long: bool = Fals
                     for _ in range(rng.choice([0, 1, 2, 2, 3, 4])):
                         steps.append({"kind": "sleep", "s": 0.0})
                 steps.append({"kind": rng.choice(["stop", "stop", "aexit"]), "exc": rng.random() < 0.3,
-                              "exc_kind": rng.choice(["plain", "cancelled", "keyboard", "base"])})
+                              "exc_kind": rng.choice(["plain"] + BODY_EXCEPTION_KINDS)})
             elif a == "send":
                 send(ports)
             elif a.startswith("occupy"):
@@ -460,7 +468,7 @@ def gen_c17(rng, index: Optional[int] = None, maxlen: int = 4, long: bool = Fals
                 for _ in range(rng.choice([0, 1, 2, 2, 3, 4])):
                     steps.append({"kind": "sleep", "s": 0.0})
             steps.append({"kind": rng.choice(["stop", "aexit"]), "exc": rng.random() < 0.3,
-                          "exc_kind": rng.choice(["plain", "cancelled", "keyboard", "base"])})
+                          "exc_kind": rng.choice(["plain"] + BODY_EXCEPTION_KINDS)})
             running = False
         elif r < 0.75:
             send(ports, late=rng.random() < 0.3)
